@@ -654,11 +654,17 @@ void NiBlendInterpolator::Sync(NiStreamReversible& stream) {
 void NiBlendInterpolator::GetChildRefs(std::set<NiRef*>& refs) {
 	NiInterpolator::GetChildRefs(refs);
 
+	for (auto& item : interpItems)
+		refs.insert(&item.interpolatorRef);
+
 	refs.insert(&singleInterpolatorRef);
 }
 
 void NiBlendInterpolator::GetChildIndices(std::vector<uint32_t>& indices) {
 	NiInterpolator::GetChildIndices(indices);
+
+	for (auto& item : interpItems)
+		indices.push_back(item.interpolatorRef.index);
 
 	indices.push_back(singleInterpolatorRef.index);
 }
